@@ -57,14 +57,20 @@ def check(chk, fx):
 def prio(chk, fx):
     chk.rule("PRIO", "priority slots of a DFA state", 7)
     # (1) first free slot
+    from .. import pathsig as PS
+    from ..lr import _drop_noise
     f = first_inst(fx, R + "add_conflicted_term")
     cn = Canon(f)
-    ev = [(k, t, g) for k, t, g, n in _events(f, cn)]
+    loops = [n for n in walk(f.body) if n.get("k") in ("ForStmt", "WhileStmt")]
+    if len(loops) != 1:
+        chk.incomplete("add_conflicted_term: slot loop not found")
+    actual, nodes = PS.event_conditions(cn, loops[0]["body"], unroll=1, drop=_drop_noise)
+    FREE = ("($0[@i{0..4}] == uninitialized16)", True)
     want = {
-        ("assign", "($0[@i{0..4}] = $1)", ("($0[@i{0..4}] == uninitialized16)",)): "a term takes the first free slot",
-        ("break", "", ("($0[@i{0..4}] == uninitialized16)",)): "and only that one",
+        ("assign", "($0[@i{0..4}] = $1)"): (PS.dnf([FREE]), "a term takes the first free slot"),
+        ("break", ""): (PS.dnf([FREE]), "and only that one"),
     }
-    _compare(chk, "PRIO", f, f.body, ev, want)
+    PS.compare(chk, "PRIO", f, loops[0], actual, nodes, want)
     # (2) writers of conflicted_recognition
     writers = set()
     for fn in fx.all_fns():
@@ -85,23 +91,33 @@ def prio(chk, fx):
     else:
         chk.ok("PRIO", "include/ctpg/ctpg.hpp " + R + "add_conflicted_term", "the only writer of the priority slots")
     # (3) mark_end_state / merge
+    def calls_of(name):
+        def evs(cn_, node):
+            return [PS.Event("call", cn_.c(n), n) for n in walk(node) if A.is_call(n) and n["callee"]["n"] == name]
+        return evs
     f = first_inst(fx, R + "dfa_builder::mark_end_state")
     cn = Canon(f)
-    calls = [(cn.c(n), cn.guards(n)) for n in walk(f.body) if A.is_call(n, q=R + "add_conflicted_term")]
-    if calls == [("add_conflicted_term($0.conflicted_recognition, $1)", ["!!$0.end_state"])]:
-        chk.ok("PRIO", A.site(f), "an accepting state records the term in its own slot list")
+    actual, nodes = PS.event_conditions(cn, f.body, events_of=calls_of("add_conflicted_term"), unroll=1, drop=_drop_noise)
+    actual = {k: v for k, v in actual.items() if k[0] == "call"}
+    c = actual.get(("call", "add_conflicted_term($0.conflicted_recognition, $1)"))
+    if c is not None and len(actual) == 1 and PS.equivalent(c, PS.dnf([("$0.end_state", True)])):
+        chk.ok("PRIO", A.site(f), "an accepting state (and only an accepting state) records the term in its own slot list")
     else:
-        chk.violation("PRIO", A.site(f), "PRIO:mark_end_state", "mark_end_state does %s" % calls)
+        chk.violation("PRIO", A.site(f), "PRIO:mark_end_state", "mark_end_state does %s" % [(k[1], PS.show(v)) for k, v in actual.items()])
     f = first_inst(fx, R + "dfa_builder::merge")
     cn = Canon(f)
-    marks = [(cn.c(n), cn.guards(n)) for n in walk(f.body) if A.is_call(n) and n["callee"]["n"] == "mark_end_state"]
-    want_call = "mark_end_state(sm[$0], sm[$1].conflicted_recognition[@i{0..4}])"
-    good = len(marks) == 1 and marks[0][0] == want_call and \
-        any(g == "(sm[$1].conflicted_recognition[@i{0..4}] != uninitialized16)" for g in marks[0][1])
-    if good:
+    loops = [n for n in walk(f.body) if n.get("k") in ("ForStmt", "WhileStmt") and
+             any(A.is_call(m) and m["callee"]["n"] == "mark_end_state" for m in walk(n))]
+    if len(loops) != 1:
+        chk.incomplete("merge: loop copying the priority slots not found")
+    actual, nodes = PS.event_conditions(cn, loops[0]["body"], events_of=calls_of("mark_end_state"), unroll=1, drop=_drop_noise)
+    actual = {k: v for k, v in actual.items() if k[0] == "call"}
+    SLOT = "(sm[$1].conflicted_recognition[@i{0..4}] == uninitialized16)"
+    c = actual.get(("call", "mark_end_state(sm[$0], sm[$1].conflicted_recognition[@i{0..4}])"))
+    if c is not None and len(actual) == 1 and PS.equivalent(c, PS.dnf([(SLOT, False)])):
         chk.ok("PRIO", A.site(f), "merge(to, from) appends from's terms, in slot order, after to's")
     else:
-        chk.violation("PRIO", A.site(f), "PRIO:merge", "merge copies priorities as %s" % marks)
+        chk.violation("PRIO", A.site(f), "PRIO:merge", "merge copies priorities as %s" % [(k[1], PS.show(v)) for k, v in actual.items()])
     f = first_inst(fx, R + "dfa_builder::alt")
     cn = Canon(f)
     ms = [cn.c(n) for n in walk(f.body) if A.is_call(n) and n["callee"]["n"] == "merge"]
